@@ -77,7 +77,16 @@ func c11Sweep(t failer, test string, in []byte) (n uint64, feasible bool, nbudge
 		if b == 0 && !feasible {
 			return // the unlimited parse of this input is exactly what the budget exists to avoid
 		}
-		ast, err, steps := grammar.ParseWithStats("", in, grammar.MaxExpressions(b))
+		// one option VALUE serves every parse it is given to (a server keeps its []grammar.Option)
+		opt := grammar.MaxExpressions(b)
+		ast, err, steps := grammar.ParseWithStats("", in, opt)
+		if feasible && nbudgets%2 == 0 { // (an option that lost its budget would make the parse of an infeasible input endless)
+			grammar.Parse("", []byte("a == 1 and b"), opt)
+			ast2, err2, steps2 := grammar.ParseWithStats("", in, opt)
+			if steps2 != steps || errText(err2) != errText(err) || !reflect.DeepEqual(ast2, ast) {
+				violation(t, "C11", test, c, "the same grammar.MaxExpressions(%d) option value, given to a second and third parse: %d steps / %s, the first parse of %s took %d steps / %s", b, steps2, errText(err2), c.InputQ, steps, errText(err))
+			}
+		}
 		ev, cerr := bexpr.CreateEvaluator(string(in), bexpr.WithMaxExpressions(b))
 		nbudgets++
 		if b != 0 && b < math.MaxUint64 && steps > b+1 {
